@@ -308,8 +308,6 @@ func lcRun(id int, sc *lcScen, base string) {
 	lc.arrivals = make(chan lcArrival, 1000)
 	lc.stash = nil
 	lc.mu.Unlock()
-	VPoint, VEvent = lcVPoint, lcVEvent
-	defer func() { VPoint, VEvent = nil, nil }()
 
 	census0 := lcCensus()
 	vEmit(vmap{"ev": "Begin", "scen": id, "origin": sc.Origin, "producer": sc.Producer})
@@ -617,6 +615,7 @@ func TestVerifLifecycle(t *testing.T) {
 		t.Fatal(err)
 	}
 	defer os.RemoveAll(base)
+	VPoint, VEvent = lcVPoint, lcVEvent // installed once; lc.active gates them
 	for i := range scens {
 		lcRun(i+1, &scens[i], base)
 	}
